@@ -1,4 +1,6 @@
+from contextlib import contextmanager
 from dataclasses import dataclass, field
+from typing import ClassVar, List
 
 from smartquery.scoped_dict import ScopedDict
 
@@ -9,3 +11,18 @@ class VMState:
     ops_evaluated: int = 0
 
     max_ops_evaluated: int = 100
+
+    # states of the eval() calls in progress, innermost last
+    _active: ClassVar[List['VMState']] = []
+
+    @contextmanager
+    def activate(self):
+        VMState._active.append(self)
+        try:
+            yield self
+        finally:
+            VMState._active.pop()
+
+    @classmethod
+    def current(cls, default: 'VMState') -> 'VMState':
+        return cls._active[-1] if cls._active else default
